@@ -10,17 +10,19 @@ TN = ['BOOLEAN', 'INT32', 'INT64', 'FLOAT', 'DOUBLE', 'BYTE_ARRAY', 'FLBA3']
 CODECS = {'unc': 'CARQUET_COMPRESSION_UNCOMPRESSED', 'snappy': 'CARQUET_COMPRESSION_SNAPPY', 'lz4': 'CARQUET_COMPRESSION_LZ4'}
 
 
-def shape(ct, opt, r, b, ps, rg, codec='unc', extra=(), timeout=900, tag='', ref=False):
+def shape(ct, opt, r, b, ps, rg, codec='unc', extra=(), timeout=900, tag='', ref=False, concrete=False):
     nm = 'rt%s/%s-%s/r%d-b%d-ps%d-rg%d/%s%s' % ('+ref' if ref else '', TN[ct], 'opt' if opt else 'req', r, b, ps, rg, codec, tag)
     d = ['-DCT=%d' % ct, '-DOPT=%d' % opt, '-DR=%d' % r, '-DB=%d' % b, '-DPS=%d' % ps, '-DRG=%d' % rg, '-DCODEC=' + CODECS[codec]] + list(extra)
-    kw = {}
+    kw = {'summaries': ['crc32']}
+    if concrete:
+        d.append('-DCONCRETE'); kw['summaries'] = []; nm += '/concrete'
     if ref:
         d += ['-DREFCHECK', '-DREF_MAX_VALUES=32', '-DREF_MAX_PAGES=8']
         kw['ref'] = ['ref_parquet_read.c', 'ref_parquet_meta.c', 'ref_thrift.c', 'ref_rle.c', 'ref_snappy.c', 'ref_lz4.c', 'ref_hash.c', 'ref_plain_bss.c']
-    return E2(nm, H, defines=d, all_lib=True, timeout=timeout, stubs=STUBS, summaries=['crc32'], fork_max=16, max_paths=60000, **kw,
+    return E2(nm, H, defines=d, all_lib=True, timeout=timeout, stubs=STUBS if not concrete else [x for x in STUBS if 'crc32' not in x], fork_max=16, max_paths=60000, **kw,
               bounds='column %s %s + INT32 REQUIRED key, %d rows, %s rows per write_batch, page_size %d, row groups %s, %s; every value bit and every null pattern symbolic%s' % (
                   TN[ct], 'OPTIONAL' if opt else 'REQUIRED', r, b or 'all', ps, ('%d+%d' % (rg, r - rg)) if rg else '1', codec,
-                  '; file also checked by the independent reference reader' if ref else ''))
+                  ('; file also checked by the independent reference reader' if ref else '') + ('; CONCRETE content, real CRC-32 computed by carquet and recomputed bitwise by the reference reader' if concrete else '')))
 
 
 def shapes(tier, ref=False):
